@@ -1,8 +1,10 @@
 #!/bin/sh
-# offline setup: nothing to build ahead of time except a sanity check of the tools
+# offline setup: check the tools and pre-build the replayer (checks rebuild it incrementally against /repo)
 set -e
 cd "$(dirname "$0")"
 verus --version >/dev/null
-python3 -c "import json,sys; json.load(open('MANIFEST.json'))"
+python3 -c "import json; json.load(open('MANIFEST.json'))"
 mkdir -p work evidence replay
+cp /repo/Cargo.lock replayer/Cargo.lock 2>/dev/null || true
+(cd replayer && CARGO_NET_OFFLINE=true cargo build --offline >/dev/null 2>&1) || echo "warning: replayer did not build (counterexample search disabled)"
 exit 0
